@@ -3,6 +3,8 @@ the same job runs on the real runners, property-specific comparators look at L1 
 from __future__ import annotations
 
 import collections
+import os
+import json
 import re
 import warnings
 
@@ -25,6 +27,9 @@ def model_predict(jobs, prop="none", workers=4, procs=None, timeout=1800, allow_
     jobs = jobs2
     res, stats = tlc.run_batch("Predict", jobs, "HG_JOBS", cfg=f"Predict_{prop}.cfg", workers=workers, procs=procs, timeout=timeout)
     if stats["l1fail"] and not allow_l1fail:
+        if os.environ.get("HGVERIF_DEBUG"):
+            with open(os.environ["HGVERIF_DEBUG"] + ".jobs", "w") as f:
+                json.dump({"jobs": jobs, "res": res}, f)
         raise ModelInconsistent(f"L2 model violates L1 definition of {prop}: {stats['l1fail'][:10]}")
     return {k: norm_model(v) for k, v in res.items()}, stats
 
